@@ -2651,3 +2651,60 @@ func bytesLeaves(c *Ctx, v ssa.Value, d int) []ssa.Value {
 	}
 	return out
 }
+
+// putUnderRecordLockRule: Controller.Put requires the record to be locked (it
+// changes the record's metadata and hands it to hooks, storage and
+// subscribers). Every call of it from package database is preceded, on every
+// path, by Lock() on that record.
+func putUnderRecordLockRule(c *Ctx, r *Report, rule string) {
+	r.SetFloor(rule, 6)
+	for _, fn := range funcsOfPkgs(c, "database") {
+		ord := map[string]int{}
+		for _, ci := range callsIn(fn, "database.Controller.Put") {
+			args := callArgs(ci.Common())
+			if len(args) < 2 {
+				continue
+			}
+			rec := args[1]
+			isLock := func(in ssa.Instruction) bool {
+				call, ok := in.(*ssa.Call)
+				if !ok {
+					return false
+				}
+				n := calleeName(call.Common())
+				if !(strings.HasSuffix(n, "record.Record.Lock") || strings.HasSuffix(n, "sync.Mutex.Lock") || strings.HasSuffix(n, "record.Base.Lock")) {
+					return false
+				}
+				a := callArgs(call.Common())
+				return len(a) > 0 && (a[0] == rec || sameExpr(a[0], rec, 0) || sameLeaves(c, a[0], rec))
+			}
+			cons := ordinal(ord, fnKey(fn)+" / Controller.Put with the record locked")
+			if why, ok := putLockExempt[fnKey(fn)]; ok {
+				r.Trivial(rule, cons, "named exception: "+why)
+				continue
+			}
+			r.Check(MustPrecede(fn, isLock, ci), rule, cons, "Lock() on the record precedes the call on every path",
+				"the record is handed to Controller.Put without being locked: its metadata is changed and read while another goroutine that holds the lock works on the same object (with the hashmap storage the stored object is shared)", c.Pos(ci.Pos()))
+		}
+	}
+}
+
+var putLockExempt = map[string]string{}
+
+func sameLeaves(c *Ctx, a, b ssa.Value) bool {
+	la, lb := c.Leaves(a), c.Leaves(b)
+	if len(la) == 0 || len(la) != len(lb) {
+		return false
+	}
+	for i := range la {
+		if la[i] != lb[i] {
+			return false
+		}
+	}
+	return true
+}
+
+func init() {
+	extend("C02", "(R24) every call of Controller.Put from package database is preceded by Lock() on the record it hands over.", func(c *Ctx, r *Report) { putUnderRecordLockRule(c, r, "C02-R24") })
+	extend("C14", "(R15) = C02-R24 (the record handed to the hooks, the storage and the subscribers is locked by the caller of Controller.Put).", func(c *Ctx, r *Report) { putUnderRecordLockRule(c, r, "C14-R15") })
+}
